@@ -461,6 +461,17 @@ def guard_tests(node, stop=None):
     return out
 
 
+def path_conditions(node, fn):
+    """[(test, polarity)] that hold when `node` is reached: the tests of the enclosing ifs (guard_tests) and, negated, the
+    tests of earlier sibling ifs whose bodies always exit.  With normalisation N3 an `else` after an exit and the plain
+    early-exit style give the same list."""
+    st = node if isinstance(node, ast.stmt) else statement_of(node)
+    out = list(guard_tests(node, fn))
+    for t in prior_exit_guards(st, fn):
+        out.append((t, False))
+    return out
+
+
 def prior_exit_guards(stmt, fn):
     """Tests T of earlier siblings `if T: return/raise/continue/break` (at any enclosing block level,
     up to fn): on reaching stmt, `not T` holds.  Returns list of test exprs."""
